@@ -85,6 +85,9 @@ C09Actual(cfg, req, resp, twinProj) ==
 
 \* ---------- Layer B: cors_filter.go ----------
 CONSTANT PointerReceiver
+\* EchoAllLines = TRUE is a counter-model: the requested headers are validated on the first field line (Header.Get)
+\* but Allow-Headers echoes every line
+CONSTANT EchoAllLines
 
 ImplOriginAllowed(cfg, origin) ==   \* cors_filter.go:131
   IF origin = "" THEN FALSE
@@ -113,7 +116,9 @@ ImplFilter(cfg, stored, req, routableSeq) ==
                          \E j \in 1..Len(cfg.headers) :
                             ToLower(cfg.headers[j]) = ToLower(RequestedHeaders(req.acrh)[i]) \/ cfg.headers[j] = "*"
        IN IF okM /\ okH
-          THEN [ac |-> Fn({<<AM, <<JoinWith(methods, ",")>> >>, <<AH, <<req.acrh>> >>} \cup ImplOptionsHeaders(cfg, req)),
+          THEN [ac |-> Fn({<<AM, <<JoinWith(methods, ",")>> >>,
+                           <<AH, <<IF EchoAllLines /\ Acrh2(req) # "" THEN req.acrh \o ", " \o Acrh2(req) ELSE req.acrh>> >>}
+                          \cup ImplOptionsHeaders(cfg, req)),
                 pass |-> FALSE, stored |-> after]
           ELSE [ac |-> Fn({}), pass |-> FALSE, stored |-> after]
 =============================================================================
